@@ -311,11 +311,19 @@ def suite_oracle(ctx, core):
                 h2 = h2[::-1].copy()
             hs2.append(h2)
         runs.append((sc, shp, hs2))
-    for sc, shp, hs in runs:
-        grid = emg3d.TensorMesh(hs, origin=(0, 0, 0))
+        # the same pattern far from the origin (UTM-like coordinates, cells of
+        # 20 .. 60 m): the weights depend on the widths only
+        runs.append((sc, shp, [rng.uniform(20., 60., n) for n in shp],
+                     (437250., 6731400., -2450.)))
+    for run_ in runs:
+        sc, shp, hs = run_[:3]
+        org = run_[3] if len(run_) > 3 else (0, 0, 0)
+        far = len(run_) > 3
+        tol = 1e-7 if far else 1e-13
+        grid = emg3d.TensorMesh(hs, origin=org)
         cgrid = emg3d.TensorMesh(
             [h.reshape(-1, 2).sum(1) if c else h
-             for h, c in zip(hs, COARS[sc])], origin=(0, 0, 0))
+             for h, c in zip(hs, COARS[sc])], origin=org)
         wts = S._get_restriction_weights(grid, cgrid, sc)
         nf = grid.n_edges
         nc = cgrid.n_edges
@@ -336,15 +344,16 @@ def suite_oracle(ctx, core):
         fi = interior_flat(grid)
         ci = interior_flat(cgrid)
         D = R[ci][:, fi] - P[fi][:, ci].T
-        if np.abs(D).max() > 1e-13:
+        if np.abs(D).max() > tol:
             a, b = np.unravel_index(np.abs(D).argmax(), D.shape)
             ctx.violation(
                 'restriction-not-transpose-of-prolongation',
-                f'sc_dir={sc}, shape {shp}: |R - P^T| = {np.abs(D).max():.3g}'
+                f'sc_dir={sc}, shape {shp}{", origin " + str(org) if far else ""}'
+                f': |R - P^T| = {np.abs(D).max():.3g}'
                 f' at interior coarse edge #{np.flatnonzero(ci)[a]} / fine '
                 f'edge #{np.flatnonzero(fi)[b]}',
                 {'sc_dir': sc, 'shape': shp, 'hx': list(hs[0]),
-                 'hy': list(hs[1]), 'hz': list(hs[2])})
+                 'hy': list(hs[1]), 'hz': list(hs[2]), 'origin': list(org)})
         if P.min() < -1e-15:
             ctx.violation('prolongation-weight-negative',
                           f'sc_dir={sc}: min weight {P.min()}',
@@ -353,7 +362,7 @@ def suite_oracle(ctx, core):
         # a row of an interior fine edge sums to one unless it touches a
         # boundary coarse edge (whose value is zero anyway): compare with the
         # sum over *all* coarse edges
-        if np.abs(rs - 1).max() > 1e-13:
+        if np.abs(rs - 1).max() > tol:
             ctx.violation('prolongation-row-sum',
                           f'sc_dir={sc}: interior fine edge row sums range '
                           f'[{rs.min()}, {rs.max()}]',
@@ -362,7 +371,7 @@ def suite_oracle(ctx, core):
             ctx.violation('prolongation-writes-boundary',
                           f'sc_dir={sc}: boundary fine edges receive values',
                           {'sc_dir': sc, 'shape': shp})
-        ctx.count(key=('oracle', sc, shp))
+        ctx.count(key=('oracle', sc, shp, far))
     ctx.oblige('monitor: real R (core.restrict) = real P^T '
                '(solver.prolongation) on interior edges; P rows >= 0, sum 1; '
                'boundary untouched', 'monitor',
